@@ -408,6 +408,141 @@ func runC10(c *core.Ctx) core.Meta {
 		}
 	}
 
+	// ---------------- R10.12 the buddy block covers the request ----------------
+	st12 := c.Rule("R10.12", "allocateMultiplePages hands out numPages consecutive pages starting at the block it took, so the block has to hold them: the block order is the exit value of a loop `for order = c; (1 << order) < numPages * 2^c; order++` (on exit 2^order >= numPages * pageSize) or the closed form c + bits.Len(uint(numPages - 1)), and the free-list level that bounds the search and the splitting is len(freeList) - 1 - (order - c). With a smaller order the trailing pages lie in the block's buddy, which is on a free list and is handed out again", 1)
+	if fn := c.MustFunc("R10.12", drvIntPkg, "deviceBuddyMemoryState.allocateMultiplePages"); fn != nil {
+		c.MarkAnalysed(fn)
+		var numPages *ssa.Parameter
+		for _, prm := range fn.Params[1:] {
+			if b, ok := prm.Type().Underlying().(*types.Basic); ok && b.Info()&types.IsInteger != 0 {
+				numPages = prm
+			}
+		}
+		isNumPages := func(v ssa.Value) bool { return numPages != nil && core.StripConv(v) == numPages }
+		var order ssa.Value // the SSA value that holds the order after it was established
+		base := int64(-1)
+		how := ""
+		for _, b := range fn.Blocks {
+			for _, in := range b.Instrs {
+				switch x := in.(type) {
+				case *ssa.If:
+					// idiom A: loop while (1 << o) < numPages * K, o an induction variable from c by +1, K == 1 << c
+					bo, ok := x.Cond.(*ssa.BinOp)
+					if !ok || bo.Op != token.LSS {
+						continue
+					}
+					sh, ok := core.StripConv(bo.X).(*ssa.BinOp)
+					if !ok || sh.Op != token.SHL {
+						continue
+					}
+					if one, isC := core.ConstInt(sh.X); !isC || one != 1 {
+						continue
+					}
+					phi, ok := core.StripConv(sh.Y).(*ssa.Phi)
+					if !ok || phi.Block() != b {
+						continue
+					}
+					mul, ok := core.StripConv(bo.Y).(*ssa.BinOp)
+					if !ok || mul.Op != token.MUL {
+						continue
+					}
+					var k int64
+					if kk, isC := core.ConstInt(mul.Y); isC && isNumPages(mul.X) {
+						k = kk
+					} else if kk, isC := core.ConstInt(mul.X); isC && isNumPages(mul.Y) {
+						k = kk
+					} else {
+						continue
+					}
+					init, step := int64(-1), false
+					for _, e := range phi.Edges {
+						if v, isC := core.ConstInt(e); isC {
+							init = v
+						} else if inc, ok := e.(*ssa.BinOp); ok && inc.Op == token.ADD && inc.X == phi {
+							if d, isC := core.ConstInt(inc.Y); isC && d == 1 {
+								step = true
+							}
+						}
+					}
+					// the true edge stays in the loop (comes back to this block), the false edge leaves it
+					loops := len(b.Succs) == 2 && reachesBlock(b.Succs[0], b) && !reachesBlock(b.Succs[1], b)
+					// the search may start below log2(K): the exit value is the same for every numPages >= 1
+					lg := int64(-1)
+					for i := int64(0); i < 62; i++ {
+						if k == int64(1)<<uint(i) {
+							lg = i
+						}
+					}
+					if init >= 0 && step && loops && lg >= 0 && init <= lg {
+						order, base, how = phi, lg, "loop while (1 << order) < numPages * pageSize"
+					}
+				case *ssa.BinOp:
+					// idiom B: c + bits.Len(uint(numPages - 1))
+					if x.Op != token.ADD {
+						continue
+					}
+					for _, pair := range [][2]ssa.Value{{x.X, x.Y}, {x.Y, x.X}} {
+						k, isC := core.ConstInt(pair[0])
+						call, ok := core.StripConv(pair[1]).(*ssa.Call)
+						if !isC || !ok {
+							continue
+						}
+						cal := call.Call.StaticCallee()
+						if cal == nil || cal.Pkg == nil || cal.Pkg.Pkg.Path() != "math/bits" || (cal.Name() != "Len" && cal.Name() != "Len64") {
+							continue
+						}
+						sub, ok := core.StripConv(call.Call.Args[0]).(*ssa.BinOp)
+						if !ok || sub.Op != token.SUB || !isNumPages(sub.X) {
+							continue
+						}
+						if d, isC := core.ConstInt(sub.Y); isC && d == 1 {
+							order, base, how = x, k, "closed form c + bits.Len(uint(numPages - 1))"
+						}
+					}
+				}
+			}
+		}
+		st12.Instances++
+		okOrder := order != nil
+		okLevel := false
+		if okOrder {
+			// level = (len(freeList) - 1) - (order - c), and level bounds a comparison of the function
+			for _, b := range fn.Blocks {
+				for _, in := range b.Instrs {
+					lv, ok := in.(*ssa.BinOp)
+					if !ok || lv.Op != token.SUB {
+						continue
+					}
+					d, ok := core.StripConv(lv.Y).(*ssa.BinOp)
+					if !ok || d.Op != token.SUB || core.StripConv(d.X) != order {
+						continue
+					}
+					if k, isC := core.ConstInt(d.Y); !isC || k != base {
+						continue
+					}
+					if !strings.Contains(prov.Of(lv.X), "freeList") {
+						continue
+					}
+					if refs := lv.Referrers(); refs != nil {
+						for _, r := range *refs {
+							switch r.(type) {
+							case *ssa.BinOp, *ssa.Phi:
+								okLevel = true
+							}
+						}
+					}
+				}
+			}
+		}
+		st12.Ob(okOrder && okLevel)
+		st12.Sample("allocateMultiplePages: block order established by %q; level derived from it: %v", how, okLevel)
+		if !okOrder {
+			c.ReportAt("R10.12", fn, fn.Pos(), "buddy:block-order", "the order of the block that serves a request of numPages pages is not established as the smallest order with 2^order >= numPages * pageSize (neither the search loop nor c + bits.Len(uint(numPages-1))): for a page count that is not a power of two a smaller block is taken, the trailing pages of the request lie in the block's buddy, which sits on a free list, and the next allocation on the device returns the same physical pages")
+		} else if !okLevel {
+			c.ReportAt("R10.12", fn, fn.Pos(), "buddy:level-from-order", "the free-list level used for the search and the splitting is not len(freeList) - 1 - (order - "+fmt.Sprint(base)+"): the block taken does not have the size the order stands for")
+		}
+	}
+
 	// ---------------- R10.4 no container mutated while ranged ----------------
 	st4 := c.Rule("R10.4", "a `for … range X` loop whose body reassigns X (remove-while-iterating) leaves the loop right after the assignment (return or break); otherwise elements are skipped or the stale length indexes past the end", 1)
 	for _, p := range []*PkgInfo{pd, pint} {
